@@ -752,18 +752,29 @@ func (x *Exec) binop(fr *Frame, st *State, t *ssa.BinOp) Val {
 			return mk(smtIte(cond, "(+ "+A+" "+B+")", r))
 		}
 		// x | c with a positive constant c whose lowest set bit is 2^a and 0 <= x < 2^a is x + c
-		for side := 0; side < 2; side++ {
-			cv, ct, ot := t.Y, B, A
-			if side == 1 {
-				cv, ct, ot = t.X, A, B
-			}
-			if n, ok := termConstBig(cv, ct); ok && n.Sign() > 0 {
-				if a := int(n.TrailingZeroBits()); a > 0 && a < 64 {
-					cond := smtAnd("(<= 0 "+ot+")", "(< "+ot+" "+pow2str(a)+")")
-					r := x.define("bor", "Int", "(bor "+A+" "+B+")")
-					x.assume(st, bitAxioms("or", r, A, B, rt))
-					return mk(smtIte(cond, "(+ "+A+" "+B+")", r))
+		{
+			var conds []string
+			for side := 0; side < 2; side++ {
+				cv, ct, ot := t.Y, B, A
+				if side == 1 {
+					cv, ct, ot = t.X, A, B
 				}
+				if n, ok := termConstBig(cv, ct); ok && n.Sign() > 0 {
+					if a := int(n.TrailingZeroBits()); a > 0 && a < 64 {
+						conds = append(conds, smtAnd("(<= 0 "+ot+")", "(< "+ot+" "+pow2str(a)+")"))
+					}
+				}
+			}
+			if len(conds) > 0 {
+				// either operand may be the constant (both are, after a case split): the sum is exact
+				// as soon as ONE of the two disjointness conditions holds
+				cond := conds[0]
+				if len(conds) == 2 {
+					cond = "(or " + conds[0] + " " + conds[1] + ")"
+				}
+				r := x.define("bor", "Int", "(bor "+A+" "+B+")")
+				x.assume(st, bitAxioms("or", r, A, B, rt))
+				return mk(smtIte(cond, "(+ "+A+" "+B+")", r))
 			}
 		}
 		// x | (1 << s) with x >= 0 and a symbolic shift amount sets one bit (or none when the shifted
